@@ -250,19 +250,27 @@ Fixpoint delete_seq (s : st) (script : nat -> N -> hres) (nh : nat) (n : N) (cnt
     if ok then delete_seq s' script nh (n + 1) c log' else (s', log', n, false)
   end.
 
+Definition put_head_ptr (s : st) : st :=
+  match headp s with Some hd => write s [WPutHead (h_id hd)] | None => s end.
+Definition put_tail_ptr (s : st) : st :=
+  match tailp s with Some tl => write s [WPutTail (h_id tl)] | None => s end.
+
+(** setTail: both pointers are persisted (the head one also when it did not move) *)
 Definition set_tail (s : st) (n : N) : st * bool :=
   match nb s n with
   | Found h =>
     let s1 := write (set_tailp s (Some h)) [WPutTail (h_id h)] in
     let over := match headp s1 with None => true | Some hd => h_height hd <? n end in
-    if over then (advance_head (set_headp (write s1 [WPutHead (h_id h)]) (Some h)), true)
-    else (s1, true)
+    let s2 := if over then advance_head (set_headp (write s1 [WPutHead (h_id h)]) (Some h)) else s1 in
+    (put_head_ptr s2, true)
   | _ => (s, false)
   end.
 
+(** setHead: both pointers are persisted *)
 Definition set_head (s : st) (n : N) : st * bool :=
   match nb s n with
-  | Found h => (write (set_hsh (set_headp s (Some h)) (h_height h)) [WPutHead (h_id h)], true)
+  | Found h =>
+    (put_tail_ptr (write (set_hsh (set_headp s (Some h)) (h_height h)) [WPutHead (h_id h)]), true)
   | _ => (s, false)
   end.
 
